@@ -42,117 +42,53 @@ Proof.
     now rewrite (proj2 (find_idx_none _ _) (HN (fun f => opt_eqb (f_rel f) (Some q)))).
 Qed.
 
-(* ---------- reference lists ---------- *)
-Lemma ok_refs_app s o a b : ok_refs s o (a ++ b) = ok_refs s o a && ok_refs s o b.
-Proof. unfold ok_refs. apply forallb_app. Qed.
-Lemma ok_refs_split s o n l : ok_refs s o l = true -> ok_refs s o (firstn n l) = true /\ ok_refs s o (skipn n l) = true.
-Proof. intros H. rewrite <- (firstn_skipn n l) in H. rewrite ok_refs_app in H. now apply andb_true_iff in H. Qed.
-Lemma ok_refs_in s o l c : ok_refs s o l = true -> In c l -> resolves s c || resolves o c = true.
-Proof. unfold ok_refs. rewrite forallb_forall. auto. Qed.
+(* ---------- the two resolution predicates ---------- *)
+Lemma ref_matches_name f c : ref_matches f c = true -> f_name f = r_name c.
+Proof. unfold ref_matches. intros H. apply andb_true_iff in H as [H _]. now apply Z.eqb_eq. Qed.
 
-Lemma resolves_name s c f : In f s -> f_name f = r_name c -> resolves s c = true.
+(* what the preservation proofs need of a resolution predicate *)
+Record res_ok (res : schema -> colref -> bool) : Prop := {
+  (* a field that carries the reference's name and a compatible qualifier resolves it *)
+  res_match : forall s c f, In f s -> ref_matches f c = true -> res s c = true;
+  (* dropping fields that do not carry the reference's name does not matter *)
+  res_filter : forall s c (keep : field -> bool),
+      (forall f, In f s -> f_name f = r_name c -> keep f = true) -> res s c = true -> res (filter keep s) c = true
+}.
+
+Lemma resolves_ok : res_ok resolves.
 Proof.
-  intros Hf Hn. rewrite resolves_iff. apply existsb_exists. exists f. split; [exact Hf|]. now apply Z.eqb_eq.
+  split.
+  - intros s c f Hf Hm. rewrite resolves_iff. apply existsb_exists. exists f. split; [exact Hf|].
+    apply Z.eqb_eq. now apply ref_matches_name.
+  - intros s c keep Hk. rewrite !resolves_iff, !existsb_exists. intros (f & Hf & Hn).
+    exists f. split; [|exact Hn]. apply filter_In. split; [exact Hf|]. apply Hk; auto. now apply Z.eqb_eq.
 Qed.
-Lemma column_in_schema_resolves s c : column_in_schema s c = true -> resolves s c = true.
+Lemma resolves_q_ok : res_ok resolves_q.
 Proof.
-  unfold column_in_schema. rewrite resolves_iff. destruct (r_rel c) as [q|]; [|auto].
-  rewrite !existsb_exists. intros (f & Hf & H). apply andb_true_iff in H as [_ H]. eauto.
-Qed.
-
-(* the statement proved for every modelled rewrite: a well-formed plan stays well-formed and keeps its output schema *)
-Definition preserves_wf (R : plan -> plan) : Prop :=
-  forall outer p, wf_plan outer p = true ->
-    wf_plan outer (R p) = true /\ schema_eq (schema_of (R p)) (schema_of p) = true.
-
-Ltac same_plan := split; [assumption | apply schema_eq_refl].
-
-(* conjunction split *)
-Theorem conj_split_preserves_wf n : preserves_wf (conj_split n).
-Proof.
-  intros outer p H. destruct p; try same_plan.
-  cbn [conj_split wf_plan schema_of] in *. apply andb_true_iff in H as [Hc Hp].
-  destruct (ok_refs_split _ _ n _ Hp) as [H1 H2]. rewrite Hc, H1, H2. split; [reflexivity | apply schema_eq_refl].
+  split.
+  - intros s c f Hf Hm. unfold resolves_q. apply existsb_exists. eauto.
+  - intros s c keep Hk. unfold resolves_q. rewrite !existsb_exists. intros (f & Hf & Hm).
+    exists f. split; [|exact Hm]. apply filter_In. split; [exact Hf|]. apply Hk; auto. now apply ref_matches_name.
 Qed.
 
-(* filter pushdown through Inner / Cross / Left joins to the left input *)
-Theorem push_filter_left_preserves_wf : preserves_wf push_filter_left.
+(* qualifier-respecting resolution is stronger than run-time resolution *)
+Lemma resolves_q_resolves s c : resolves_q s c = true -> resolves s c = true.
 Proof.
-  intros outer p H. destruct p as [| c pred | | | | | | | | | | |]; try same_plan.
-  destruct c as [| | | jt l r onl onr jf sch | | | | | | | | |]; try same_plan.
-  cbn [push_filter_left].
-  destruct jt; try same_plan;
-  (destruct (forallb (column_in_schema (schema_of l)) pred && negb (existsb (column_in_schema (schema_of r)) pred)) eqn:G;
-   [|same_plan]);
-  (apply andb_true_iff in G as [G _];
-   cbn [wf_plan schema_of] in *;
-   repeat match goal with Hx : _ && _ = true |- _ => apply andb_true_iff in Hx as [Hx ?] end;
-   split; [|apply schema_eq_refl];
-   repeat (apply andb_true_iff; split); try assumption;
-   unfold ok_refs; apply forallb_forall; intros c Hc; rewrite forallb_forall in G;
-   rewrite (column_in_schema_resolves _ _ (G c Hc)); reflexivity).
+  unfold resolves_q. rewrite resolves_iff, !existsb_exists. intros (f & Hf & Hm). exists f. split; [exact Hf|].
+  apply Z.eqb_eq. now apply ref_matches_name.
 Qed.
 
-(* projection pruning into the scan *)
-Lemma resolves_filter_used ssch used c :
-  In c used -> resolves ssch c = true ->
-  resolves (filter (fun f => existsb (fun c' => f_name f =? r_name c') used) ssch) c = true.
+Lemma ref_matches_self f : ref_matches f (mkRef (f_rel f) (f_name f)) = true.
 Proof.
-  intros Hu. rewrite !resolves_iff, !existsb_exists. intros (f & Hf & Hn).
-  exists f. split; [|exact Hn]. apply filter_In. split; [exact Hf|]. apply existsb_exists. eauto.
+  unfold ref_matches. cbn. rewrite Z.eqb_refl. destruct (f_rel f); cbn; [now rewrite Z.eqb_refl | reflexivity].
 Qed.
-Lemma ok_refs_filter_used ssch outer used l :
-  (forall c, In c l -> In c used) -> ok_refs ssch outer l = true ->
-  ok_refs (filter (fun f => existsb (fun c' => f_name f =? r_name c') used) ssch) outer l = true.
+Lemma column_in_schema_match s c : column_in_schema s c = true -> exists f, In f s /\ ref_matches f c = true.
 Proof.
-  intros Hs H. unfold ok_refs in *. rewrite forallb_forall in *. intros c Hc. specialize (H c Hc).
-  apply orb_true_iff in H as [H|H]; [|now rewrite H, orb_true_r].
-  now rewrite (resolves_filter_used ssch used c (Hs c Hc) H).
-Qed.
-Theorem prune_scan_preserves_wf : preserves_wf prune_scan.
-Proof.
-  intros outer p H. destruct p as [| | c exprs sch | | | | | | | | | |]; try same_plan.
-  destruct c as [ssch filt | | | | | | | | | | | |]; try same_plan.
-  cbn [prune_scan wf_plan schema_of] in *.
-  repeat match goal with Hx : _ && _ = true |- _ => apply andb_true_iff in Hx as [Hx ?] end.
-  split; [|apply schema_eq_refl]. repeat (apply andb_true_iff; split); try assumption.
-  - apply ok_refs_filter_used; [|assumption]. intros c Hc. apply in_or_app. now right.
-  - apply forallb_forall. intros e He. apply ok_refs_filter_used.
-    + intros c Hc. apply in_or_app. left. apply in_concat. eauto.
-    + match goal with Hx : forallb _ exprs = true |- _ => rewrite forallb_forall in Hx; now apply Hx end.
+  unfold column_in_schema, ref_matches. destruct (r_rel c) as [q|]; rewrite existsb_exists; intros (f & Hf & H); exists f; split; auto.
+  - apply andb_true_iff in H as [H1 H2]. now rewrite H2, H1.
+  - now rewrite H.
 Qed.
 
-(* packed join keys *)
-Theorem pack_join_keys_preserves_wf : preserves_wf pack_join_keys.
-Proof.
-  intros outer p H. destruct p as [| | | jt l r onl onr jf sch | | | | | | | | |]; try same_plan.
-  destruct jt; try same_plan.
-  destruct onl as [|l1 [|l2 [|]]]; try same_plan. destruct onr as [|r1 [|r2 [|]]]; try same_plan.
-  cbn [pack_join_keys wf_plan schema_of forallb length] in *.
-  repeat match goal with Hx : _ && _ = true |- _ => apply andb_true_iff in Hx as [Hx ?] end.
-  split; [|apply schema_eq_refl]. rewrite !ok_refs_app.
-  repeat (apply andb_true_iff; split); try assumption; reflexivity.
-Qed.
-
-(* packed group keys *)
-Lemma resolves_self s f : In f s -> resolves s (mkRef (f_rel f) (f_name f)) = true.
-Proof. intros H. now apply (resolves_name s _ f). Qed.
-Theorem pack_group_keys_preserves_wf pk ty64 : preserves_wf (pack_group_keys pk ty64).
-Proof.
-  intros outer p H. destruct p as [| | | | c g aggs sch | | | | | | | |]; try same_plan.
-  destruct g as [|ga [|gb [|]]]; try same_plan. destruct sch as [|fa [|fb rest]]; try same_plan.
-  cbn [pack_group_keys wf_plan schema_of forallb length] in *.
-  repeat match goal with Hx : _ && _ = true |- _ => apply andb_true_iff in Hx as [Hx ?] end.
-  split; [|apply schema_eq_refl]. rewrite ok_refs_app.
-  repeat (apply andb_true_iff; split); try assumption; try reflexivity.
-  - rewrite (resolves_name _ (mkRef None pk) (mkField None pk ty64)); [reflexivity | now left | reflexivity].
-  - rewrite (resolves_name _ (mkRef None pk) (mkField None pk ty64)); [reflexivity | now left | reflexivity].
-  - apply forallb_forall. intros e He. apply in_map_iff in He as (f & <- & Hf). cbn [ok_refs forallb].
-    rewrite resolves_self; [reflexivity | now right].
-  - rewrite map_length. apply Nat.eqb_refl.
-Qed.
-
-(* group-key reduction *)
 Lemma others_length {A} k (l : list A) : (k < length l)%nat -> length (others k l) = (length l - 1)%nat.
 Proof.
   unfold others. intros Hk.
@@ -182,54 +118,6 @@ Proof. intros H Hn. unfold others. apply filter_In. split; [exact H|]. cbn. now 
 Lemma others_sub {A} k (l : list A) ix : In ix (others k l) -> In (snd ix) l.
 Proof. unfold others. intros H. apply filter_In in H as [H _]. destruct ix. now apply in_combine_r in H. Qed.
 
-Theorem group_key_reduce_preserves_wf fd k : preserves_wf (group_key_reduce fd k).
-Proof.
-  intros outer p H. destruct p as [| | | | c group aggs sch | | | | | | | |]; try same_plan.
-  cbn [group_key_reduce].
-  destruct (nth_error group k) as [gk|] eqn:EG; [|same_plan]. destruct (nth_error sch k) as [fk|] eqn:EF; [|same_plan].
-  destruct ((2 <=? length group)%nat && (length group <=? length sch)%nat
-            && match gk with [ck] => f_name fk =? r_name ck | _ => false end) eqn:G; [|same_plan].
-  apply andb_true_iff in G as [G Gk]. apply andb_true_iff in G as [G2 Gn].
-  apply Nat.leb_le in G2. apply Nat.leb_le in Gn.
-  destruct gk as [|ck [|]]; try discriminate. apply Z.eqb_eq in Gk.
-  cbn [wf_plan schema_of] in *.
-  repeat match goal with Hx : _ && _ = true |- _ => apply andb_true_iff in Hx as [Hx ?] end.
-  match goal with Hx : Nat.eqb _ (length sch) = true |- _ => apply Nat.eqb_eq in Hx; rename Hx into Har end.
-  rename H into Hc.
-  match goal with Hx : forallb _ group = true |- _ => rename Hx into Hg end.
-  match goal with Hx : forallb _ aggs = true |- _ => rename Hx into Ha end.
-  assert (k < length group)%nat as Hk by (apply nth_error_Some; congruence).
-  assert (In [ck] group) as Hgk by (eapply nth_error_In; eauto).
-  set (n := length group) in *.
-  assert (length (firstn n sch) = n) as Lf by (apply firstn_length_le; lia).
-  assert (length (skipn n sch) = length aggs) as Ls by (rewrite skipn_length; lia).
-  split; [|apply schema_eq_refl].
-  repeat (apply andb_true_iff; split).
-  - exact Hc.
-  - rewrite forallb_forall in Hg. specialize (Hg _ Hgk). cbn [ok_refs forallb] in Hg. now rewrite andb_true_r in Hg.
-  - reflexivity.
-  - reflexivity.
-  - rewrite forallb_app. apply andb_true_iff. split; [exact Ha|].
-    apply forallb_forall. intros e He. apply in_map_iff in He as (ix & <- & Hix).
-    rewrite forallb_forall in Hg. apply Hg. now apply others_sub in Hix.
-  - apply Nat.eqb_eq. cbn [length]. rewrite !app_length, !map_length, Ls.
-    rewrite !others_length by (rewrite ?Lf; assumption). rewrite Lf. reflexivity.
-  - (* the restoring projection resolves against the reduced aggregate's schema *)
-    rewrite forallb_app. apply andb_true_iff. split; apply forallb_forall; intros e He.
-    + apply in_map_iff in He as ([i f] & <- & Hif). cbn [fst snd].
-      destruct (Nat.eqb i k) eqn:E.
-      * cbn [ok_refs forallb]. rewrite (resolves_name _ ck fk); [reflexivity | now left | exact Gk].
-      * apply Nat.eqb_neq in E. cbn [ok_refs forallb].
-        rewrite (resolves_name _ (mkRef None (fd i)) (mkField None (fd i) (f_type f))); [reflexivity | | reflexivity].
-        right. apply in_or_app. right. apply in_map_iff. exists (i, f). split; [reflexivity|].
-        apply others_in; [|exact E]. now rewrite Lf.
-    + apply in_map_iff in He as (f & <- & Hf). cbn [ok_refs forallb].
-      rewrite resolves_self; [reflexivity|]. right. apply in_or_app. now left.
-  - apply Nat.eqb_eq. rewrite app_length, !map_length, combine_length, seq_length, Lf, Ls. lia.
-Qed.
-
-(* whatever sequence of the modelled rewrites is applied (the fixpoint driver of C03 applies them in some order, some
-   number of times), the plan stays well-formed and keeps its output column names and types *)
 Lemma schema_eq_trans a b c : schema_eq a b = true -> schema_eq b c = true -> schema_eq a c = true.
 Proof.
   unfold schema_eq. revert b c. induction a as [|x a IH]; intros [|y b] [|z c]; cbn; try congruence.
@@ -242,15 +130,164 @@ Proof.
     repeat match goal with Hx : (_ =? _) = true |- _ => apply Z.eqb_eq in Hx end. subst. apply Z.eqb_refl. }
   cbn. apply andb_true_iff. split; apply Z.eqb_eq; congruence.
 Qed.
+
+Section Preservation.
+  Variable res : schema -> colref -> bool.
+  Hypothesis R : res_ok res.
+  Local Notation ok := (ok_refs_gen res).
+  Local Notation wf := (wf_plan_gen res).
+
+  Lemma ok_refs_app s o a b : ok s o (a ++ b) = ok s o a && ok s o b.
+  Proof. unfold ok_refs_gen. apply forallb_app. Qed.
+  Lemma ok_refs_split s o n l : ok s o l = true -> ok s o (firstn n l) = true /\ ok s o (skipn n l) = true.
+  Proof. intros H. rewrite <- (firstn_skipn n l) in H. rewrite ok_refs_app in H. now apply andb_true_iff in H. Qed.
+
+  (* the statement proved for every modelled rewrite: a well-formed plan stays well-formed and keeps its output schema *)
+  Definition preserves_wf (Rw : plan -> plan) : Prop :=
+    forall outer p, wf outer p = true ->
+      wf outer (Rw p) = true /\ schema_eq (schema_of (Rw p)) (schema_of p) = true.
+
+  Ltac same_plan := split; [assumption | apply schema_eq_refl].
+  Ltac splits := repeat match goal with Hx : _ && _ = true |- _ => apply andb_true_iff in Hx as [Hx ?] end.
+
+  (* conjunction split *)
+  Theorem conj_split_preserves_wf n : preserves_wf (conj_split n).
+  Proof.
+    intros outer p H. destruct p; try same_plan.
+    cbn [conj_split wf_plan_gen schema_of] in *. apply andb_true_iff in H as [Hc Hp].
+    destruct (ok_refs_split _ _ n _ Hp) as [H1 H2]. rewrite Hc, H1, H2.
+    split; [reflexivity | apply schema_eq_refl].
+  Qed.
+
+  (* filter pushdown through Inner / Cross / Left joins to the left input *)
+  Theorem push_filter_left_preserves_wf : preserves_wf push_filter_left.
+  Proof.
+    intros outer p H. destruct p as [| c pred | | | | | | | | | | |]; try same_plan.
+    destruct c as [| | | jt l r onl onr jf sch | | | | | | | | |]; try same_plan.
+    cbn [push_filter_left].
+    destruct jt; try same_plan;
+    (destruct (forallb (column_in_schema (schema_of l)) pred && negb (existsb (column_in_schema (schema_of r)) pred)) eqn:G;
+     [|same_plan]);
+    (apply andb_true_iff in G as [G _];
+     cbn [wf_plan_gen schema_of] in *; splits;
+     split; [|apply schema_eq_refl];
+     repeat (apply andb_true_iff; split); try assumption;
+     unfold ok_refs_gen; apply forallb_forall; intros c Hc; rewrite forallb_forall in G;
+     destruct (column_in_schema_match _ _ (G c Hc)) as (f & Hf & Hm);
+     rewrite (res_match res R _ _ f Hf Hm); reflexivity).
+  Qed.
+
+  (* projection pruning into the scan *)
+  Lemma ok_refs_filter_used ssch outer used l :
+    (forall c, In c l -> In c used) -> ok ssch outer l = true ->
+    ok (filter (fun f => existsb (fun c' => f_name f =? r_name c') used) ssch) outer l = true.
+  Proof.
+    intros Hs H. unfold ok_refs_gen in *. rewrite forallb_forall in *. intros c Hc. specialize (H c Hc).
+    apply orb_true_iff in H as [H|H]; [|now rewrite H, orb_true_r].
+    rewrite (res_filter res R ssch c _); [reflexivity | | exact H].
+    intros f Hf Hn. apply existsb_exists. exists c. split; [now apply Hs | now apply Z.eqb_eq].
+  Qed.
+  Theorem prune_scan_preserves_wf : preserves_wf prune_scan.
+  Proof.
+    intros outer p H. destruct p as [| | c exprs sch | | | | | | | | | |]; try same_plan.
+    destruct c as [ssch filt | | | | | | | | | | | |]; try same_plan.
+    cbn [prune_scan wf_plan_gen schema_of] in *. splits.
+    split; [|apply schema_eq_refl]. repeat (apply andb_true_iff; split); try assumption.
+    - apply ok_refs_filter_used; [|assumption]. intros c Hc. apply in_or_app. now right.
+    - apply forallb_forall. intros e He. apply ok_refs_filter_used.
+      + intros c Hc. apply in_or_app. left. apply in_concat. eauto.
+      + match goal with Hx : forallb _ exprs = true |- _ => rewrite forallb_forall in Hx; now apply Hx end.
+  Qed.
+
+  (* packed join keys *)
+  Theorem pack_join_keys_preserves_wf : preserves_wf pack_join_keys.
+  Proof.
+    intros outer p H. destruct p as [| | | jt l r onl onr jf sch | | | | | | | | |]; try same_plan.
+    destruct jt; try same_plan.
+    destruct onl as [|l1 [|l2 [|]]]; try same_plan. destruct onr as [|r1 [|r2 [|]]]; try same_plan.
+    cbn [pack_join_keys wf_plan_gen schema_of forallb length] in *. splits.
+    split; [|apply schema_eq_refl]. rewrite !ok_refs_app.
+    repeat (apply andb_true_iff; split); try assumption; reflexivity.
+  Qed.
+
+  (* packed group keys *)
+  Theorem pack_group_keys_preserves_wf pk ty64 : preserves_wf (pack_group_keys pk ty64).
+  Proof.
+    intros outer p H. destruct p as [| | | | c g aggs sch | | | | | | | |]; try same_plan.
+    destruct g as [|ga [|gb [|]]]; try same_plan. destruct sch as [|fa [|fb rest]]; try same_plan.
+    cbn [pack_group_keys wf_plan_gen schema_of forallb length] in *. splits.
+    split; [|apply schema_eq_refl]. rewrite ok_refs_app.
+    assert (res (mkField None pk ty64 :: rest) (mkRef None pk) = true) as Hpk.
+    { apply (res_match res R _ _ (mkField None pk ty64)); [now left|]. unfold ref_matches. cbn. now rewrite Z.eqb_refl. }
+    repeat (apply andb_true_iff; split); try assumption; try reflexivity.
+    - unfold ok_refs_gen. cbn [forallb]. now rewrite Hpk.
+    - unfold ok_refs_gen. cbn [forallb]. now rewrite Hpk.
+    - apply forallb_forall. intros e He. apply in_map_iff in He as (f & <- & Hf). unfold ok_refs_gen. cbn [forallb].
+      rewrite (res_match res R _ _ f); [reflexivity | now right | apply ref_matches_self].
+    - rewrite map_length. apply Nat.eqb_refl.
+  Qed.
+
+  (* group-key reduction *)
+  Theorem group_key_reduce_preserves_wf fd k : preserves_wf (group_key_reduce fd k).
+  Proof.
+    intros outer p H. destruct p as [| | | | c group aggs sch | | | | | | | |]; try same_plan.
+    cbn [group_key_reduce].
+    destruct (nth_error group k) as [gk|] eqn:EG; [|same_plan]. destruct (nth_error sch k) as [fk|] eqn:EF; [|same_plan].
+    destruct ((2 <=? length group)%nat && (length group <=? length sch)%nat
+              && match gk with [ck] => ref_matches fk ck | _ => false end) eqn:G; [|same_plan].
+    apply andb_true_iff in G as [G Gk]. apply andb_true_iff in G as [G2 Gn].
+    apply Nat.leb_le in G2. apply Nat.leb_le in Gn.
+    destruct gk as [|ck [|]]; try discriminate.
+    cbn [wf_plan_gen schema_of] in *. splits.
+    match goal with Hx : Nat.eqb _ (length sch) = true |- _ => apply Nat.eqb_eq in Hx; rename Hx into Har end.
+    rename H into Hc.
+    match goal with Hx : forallb _ group = true |- _ => rename Hx into Hg end.
+    match goal with Hx : forallb _ aggs = true |- _ => rename Hx into Ha end.
+    assert (k < length group)%nat as Hk by (apply nth_error_Some; congruence).
+    assert (In [ck] group) as Hgk by (eapply nth_error_In; eauto).
+    set (n := length group) in *.
+    assert (length (firstn n sch) = n) as Lf by (apply firstn_length_le; lia).
+    assert (length (skipn n sch) = length aggs) as Ls by (rewrite skipn_length; lia).
+    split; [|apply schema_eq_refl].
+    repeat (apply andb_true_iff; split).
+    - exact Hc.
+    - rewrite forallb_forall in Hg. specialize (Hg _ Hgk). unfold ok_refs_gen in *. cbn [forallb] in *.
+      now rewrite andb_true_r in Hg.
+    - reflexivity.
+    - reflexivity.
+    - rewrite forallb_app. apply andb_true_iff. split; [exact Ha|].
+      apply forallb_forall. intros e He. apply in_map_iff in He as (ix & <- & Hix).
+      rewrite forallb_forall in Hg. apply Hg. now apply others_sub in Hix.
+    - apply Nat.eqb_eq. cbn [length]. rewrite !app_length, !map_length, Ls.
+      rewrite !others_length by (rewrite ?Lf; assumption). rewrite Lf. reflexivity.
+    - (* the restoring projection resolves against the reduced aggregate's schema *)
+      rewrite forallb_app. apply andb_true_iff. split; apply forallb_forall; intros e He.
+      + apply in_map_iff in He as ([i f] & <- & Hif). cbn [fst snd].
+        destruct (Nat.eqb i k) eqn:E.
+        * unfold ok_refs_gen. cbn [forallb]. rewrite (res_match res R _ ck fk); [reflexivity | now left | exact Gk].
+        * apply Nat.eqb_neq in E. unfold ok_refs_gen. cbn [forallb].
+          rewrite (res_match res R _ (mkRef None (fd i)) (mkField None (fd i) (f_type f))); [reflexivity | |].
+          -- right. apply in_or_app. right. apply in_map_iff. exists (i, f). split; [reflexivity|].
+             apply others_in; [|exact E]. now rewrite Lf.
+          -- unfold ref_matches. cbn. now rewrite Z.eqb_refl.
+      + apply in_map_iff in He as (f & <- & Hf). unfold ok_refs_gen. cbn [forallb].
+        rewrite (res_match res R _ _ f); [reflexivity | | apply ref_matches_self]. right. apply in_or_app. now left.
+    - apply Nat.eqb_eq. rewrite app_length, !map_length, combine_length, seq_length, Lf, Ls. lia.
+  Qed.
+
+  (* whatever sequence of the modelled rewrites is applied (the fixpoint driver of C03 applies them in some order, some
+   number of times), the plan stays well-formed and keeps its output column names and types *)
 Theorem rule_sequence_preserves_wf (rules : list (plan -> plan)) :
-  (forall R, In R rules -> preserves_wf R) -> preserves_wf (fun p => fold_left (fun acc R => R acc) rules p).
+  (forall Rw, In Rw rules -> preserves_wf Rw) -> preserves_wf (fun p => fold_left (fun acc Rw => Rw acc) rules p).
 Proof.
-  induction rules as [|R t IH]; intros HR outer p H; cbn [fold_left].
+  induction rules as [|Rw t IH]; intros HR outer p H; cbn [fold_left].
   - split; [exact H | apply schema_eq_refl].
-  - destruct (HR R (or_introl eq_refl) outer p H) as [H1 H2].
-    destruct (IH (fun R' HR' => HR R' (or_intror HR')) outer (R p) H1) as [H3 H4].
+  - destruct (HR Rw (or_introl eq_refl) outer p H) as [H1 H2].
+    destruct (IH (fun R' HR' => HR R' (or_intror HR')) outer (Rw p) H1) as [H3 H4].
     split; [exact H3 | eapply schema_eq_trans; eauto].
 Qed.
+
+End Preservation.
 
 Example rewrites_example :
   let t := [mkField (Some 1) 10 100; mkField (Some 1) 11 100; mkField (Some 1) 12 100] in
@@ -261,3 +298,17 @@ Example rewrites_example :
   group_key_reduce (fun i => 900 + Z.of_nat i) 0 agg <> agg /\
   wf_plan [] (pack_group_keys 800 100 agg) = true /\ pack_group_keys 800 100 agg <> agg.
 Proof. cbv zeta. repeat split; try (vm_compute; reflexivity); vm_compute; discriminate. Qed.
+
+(* the plan a wrong-side semi-join pushdown produces: Semi(ua, uc) keyed on ub.id over the left schema [ua.id, ua.ref_id, ua.x].
+   It runs (rule 3 of find_column_index picks ua.id) but the reference denotes another relation's column:
+   well-formed for run-time resolution, NOT for qualifier-respecting resolution. (ids: ua=1 ub=2 uc=3; id=10 ref_id=11 x=12 cid=13) *)
+Definition wrong_side_semi : plan :=
+  PJoin JK_Semi (PScan [mkField (Some 1) 10 100; mkField (Some 1) 11 100; mkField (Some 1) 12 100] [])
+                (PScan [mkField (Some 3) 13 100; mkField (Some 3) 10 100] [])
+        [[mkRef (Some 2) 10]] [[mkRef (Some 3) 13]] []
+        [mkField (Some 1) 10 100; mkField (Some 1) 11 100; mkField (Some 1) 12 100].
+Theorem wrong_side_semi_refuted :
+  wf_plan [] wrong_side_semi = true /\ wf_plan_q [] wrong_side_semi = false /\
+  resolve (schema_of (PScan [mkField (Some 1) 10 100; mkField (Some 1) 11 100; mkField (Some 1) 12 100] [])) (mkRef (Some 2) 10) = Some 0%nat /\
+  resolves_strict [mkField (Some 1) 10 100; mkField (Some 1) 11 100; mkField (Some 1) 12 100] (mkRef (Some 2) 10) = false.
+Proof. repeat split; vm_compute; reflexivity. Qed.
